@@ -97,6 +97,9 @@ ObsClauses(e) ==
        /\ Flag(e, "C04.PoolWithinCap", LeQ(ObsSumMem(p), ObsSumMemR(p), cfg.ramcap, cfg.ramcapr), <<k, ObsSumMem(p)>>)
        /\ Flag(e, "C04.ReportedIsSum", EqQ(p.cons, p.consr, ObsSumMem(p), ObsSumMemR(p)), <<k, p.cons, p.consr, ObsSumMem(p), ObsSumMemR(p)>>)
        /\ Flag(e, "C10.SuspLeftPositive", \A j \in 1..Len(p.suspending) : p.suspending[j].sleft >= 1, k)
+       \* while a container is writing out, its unfinished operators stay SUSPENDING (not released early, not lost)
+       /\ Flag(e, "C10.NoEarlyRelease", \A j \in 1..Len(p.suspending) : \A m \in (p.suspending[j].idx + 1)..Len(p.suspending[j].ops) :
+                  ObsOst(e, p.suspending[j].ops[m]) = "suspending", <<k, p.suspending>>)
        /\ Flag(e, "C10.Keeps", \A j \in 1..Len(p.suspending) : LET c == p.suspending[j] IN
                   (c.cid \in 1..Len(s.ctr) /\ s.ctr[c.cid].ram > 0) => (c.cpu = s.ctr[c.cid].cpu /\ c.ram = s.ctr[c.cid].ram /\ c.idx = s.ctr[c.cid].idx), k)
   \* results: success <=> all completed; failure names an error and leaves completed prefix + failed suffix
@@ -238,6 +241,11 @@ StepExec(e) ==
           /\ ObsClauses(e)
           /\ KillClauses(e, pred)
           /\ ConfClauses(e, pred)
+          \* in the tick a suspension finishes: finished operators stay completed, the unfinished ones are pending (assignable again)
+          /\ Flag(e, "C10.WorkIntact", \A k \in 1..cfg.np : \A cid \in Range(e.obs.pools[k].suspended) \ Range(s.pools[k].suspended) :
+                     cid \in 1..Len(pred.ctr) => LET c == pred.ctr[cid] IN
+                        /\ \A m \in 1..c.idx : ObsOst(e, c.ops[m]) = "completed"
+                        /\ \A m \in (c.idx + 1)..Len(c.ops) : ObsOst(e, c.ops[m]) = "pending", "operators of a finished suspension")
           /\ Flag(e, "C09.OneContainerPerAssignment", ObsMaxCid(e.obs) <= created /\ created = Len(s.ctr) + Len(cmds.asg), <<ObsMaxCid(e.obs), created>>)
           /\ AcctClause(e, created)
           /\ acct' = AcctAfter(e)
